@@ -27,6 +27,7 @@ func init() {
 			"C13.R4 flow-insensitive dependence slice (through memory of locals and pointer arguments of calls) of each analysis field store",
 			"C13.R5 freshness of slices stored into records",
 			"C13.R7 exactness of integer divisions: every integer division by a constant in the backward slice of a stored summary quantity (followed into module helpers) has a dividend that the constant always divides; decided by evaluating the dividend's one-unknown polynomial at 0..47, a non-multiple is the reported witness",
+			"C13.R8 no arithmetic (+ - * <<) in an 8- or 16-bit integer type anywhere in the value slice of a summary quantity, helpers included: samples are widened first",
 			"C13.R6 sample ranges: the SSA slice of each pre-trigger quantity reads the record's vector only at indices [0, presamples), that of each post-trigger quantity only at [presamples, len) (cut at the pre-trigger mean); whole-vector reads are reported",
 		},
 		Run: runC13,
@@ -40,6 +41,7 @@ func runC13(p *Prog, r *Report) {
 	r.MinInstances["C13.R4"] = 7
 	r.MinInstances["C13.R5"] = 1
 	r.MinInstances["C13.R6"] = 5
+	r.MinInstances["C13.R8"] = 5
 	r.MinInstances["C13.R7"] = 5
 	c13R1(p, r)
 	c13R2(p, r)
@@ -135,6 +137,14 @@ func c13R1(p *Prog, r *Report) {
 						continue
 					}
 					if (bo.Op == token.NEQ && ci.Branch == 1) || (bo.Op == token.EQL && ci.Branch == 0) {
+						if call := errCall(bo.X); call != nil {
+							// `if err := checkDims(...); err != nil { return err }`: what the helper
+							// established on its way to returning nil, in this function's names
+							for _, eq := range c13HelperEqualities(c, call) {
+								u.union(eq[0], eq[1])
+							}
+							continue
+						}
 						u.union(c13Name(c, bo.X), c13Name(c, bo.Y))
 					}
 				}
@@ -152,6 +162,60 @@ func c13R1(p *Prog, r *Report) {
 			}
 		}
 	}
+}
+
+// c13HelperEqualities: the equalities a validation helper established whenever it returns a nil
+// error (its only nil return is reached through them), with the helper's parameters replaced by
+// the caller's names of the arguments.
+func c13HelperEqualities(c *PolyCtx, call *ssa.Call) [][2]string {
+	h := call.Call.StaticCallee()
+	if !isModuleFn(h) || len(h.Params) != len(call.Call.Args) {
+		return nil
+	}
+	var nilRet *ssa.Return
+	n := 0
+	Instrs(h, func(in ssa.Instruction) {
+		ret, ok := in.(*ssa.Return)
+		if !ok || len(ret.Results) == 0 {
+			return
+		}
+		last := ret.Results[len(ret.Results)-1]
+		if k, isC := last.(*ssa.Const); isC && k.Value == nil {
+			nilRet = ret
+			n++
+		} else if !definitelyNonNilError(last) {
+			n += 2
+		}
+	})
+	if n != 1 {
+		return nil
+	}
+	hc := NewPolyCtx(h)
+	tr := func(name string) string {
+		for i, prm := range h.Params {
+			arg := call.Call.Args[i]
+			if name == prm.Name() {
+				return c13Name(c, arg)
+			}
+			if strings.HasPrefix(name, prm.Name()+".") {
+				if ap, ok := stripConv(arg).(*ssa.Parameter); ok {
+					return ap.Name() + strings.TrimPrefix(name, prm.Name())
+				}
+			}
+		}
+		return "?" + name
+	}
+	var out [][2]string
+	for _, ci := range controllingIfs(nilRet.Block()) {
+		bo, ok := ci.If.Cond.(*ssa.BinOp)
+		if !ok {
+			continue
+		}
+		if (bo.Op == token.NEQ && ci.Branch == 1) || (bo.Op == token.EQL && ci.Branch == 0) {
+			out = append(out, [2]string{tr(c13Name(hc, bo.X)), tr(c13Name(hc, bo.Y))})
+		}
+	}
+	return out
 }
 
 // ---- R2 -----------------------------------------------------------------------------------
@@ -655,10 +719,48 @@ func c13R6(p *Prog, r *Report) {
 		if st := stores["pretrigMean"]; st != nil {
 			ptm = st.Val
 		}
+		// frame: parameters of the helpers the computation passes through, as the caller's values
+		frame := map[*ssa.Parameter]ssa.Value{}
+		frameClash := ""
+		resolve := func(v ssa.Value) ssa.Value {
+			for i := 0; i < 6; i++ {
+				v = stripConv(v)
+				prm, ok := v.(*ssa.Parameter)
+				if !ok {
+					break
+				}
+				a, ok := frame[prm]
+				if !ok {
+					break
+				}
+				v = a
+			}
+			return v
+		}
 		isPresamples := func(v ssa.Value) bool {
-			v = stripConv(v)
+			v = resolve(v)
 			o, f, _, ok := FieldOf(v)
 			return ok && o == rec.Obj().Name() && f == "presamples"
+		}
+		// sampleSlice: v is the record's raw sample slice (rec.data, possibly handed to a helper),
+		// whole or as one window [lo, hi)
+		var sampleSlice func(v ssa.Value, depth int) (ok bool, lo, hi ssa.Value, win bool)
+		sampleSlice = func(v ssa.Value, depth int) (bool, ssa.Value, ssa.Value, bool) {
+			v = resolve(v)
+			if depth > 3 {
+				return false, nil, nil, false
+			}
+			if sl, isSl := v.(*ssa.Slice); isSl {
+				ok, _, _, win := sampleSlice(sl.X, depth+1)
+				if !ok || win {
+					return false, nil, nil, false
+				}
+				return true, sl.Low, sl.High, true
+			}
+			if o, f, _, ok := FieldOf(v); ok && o == rec.Obj().Name() && f == "data" {
+				return true, nil, nil, false
+			}
+			return false, nil, nil, false
 		}
 		var names []string
 		for f := range stores {
@@ -671,12 +773,24 @@ func c13R6(p *Prog, r *Report) {
 			bad := ""
 			nread := 0
 			seen := map[ssa.Value]bool{}
+			narrowAt := ""
 			var walk func(v ssa.Value)
 			walk = func(v ssa.Value) {
 				if v == nil || seen[v] || bad != "" {
 					return
 				}
 				seen[v] = true
+				if bo, isBo := v.(*ssa.BinOp); isBo && narrowAt == "" {
+					if bt, isB := bo.Type().Underlying().(*types.Basic); isB && bt.Info()&types.IsInteger != 0 {
+						switch bt.Kind() {
+						case types.Int8, types.Uint8, types.Int16, types.Uint16:
+							switch bo.Op {
+							case token.ADD, token.SUB, token.MUL, token.SHL:
+								narrowAt = fmt.Sprintf("%s (%s of %s values)", p.InstrPos(bo), bo.Op, bo.Type())
+							}
+						}
+					}
+				}
 				if want == "post" && ptm != nil && v == ptm {
 					return // the pre-trigger mean enters the post-trigger quantities by definition
 				}
@@ -717,6 +831,93 @@ func c13R6(p *Prog, r *Report) {
 							}
 						}
 						return
+					}
+				}
+				// an element of the record's own sample slice (possibly inside a helper it was handed to)
+				if ia, ok := v.(*ssa.IndexAddr); ok {
+					if isS, lo, hi, win := sampleSlice(ia.X, 0); isS {
+						nread++
+						zero := func(x ssa.Value) bool {
+							if x == nil {
+								return true
+							}
+							k, isC := constInt(resolve(x))
+							return isC && k == 0
+						}
+						idx := resolve(ia.Index)
+						ph, _ := idx.(*ssa.Phi)
+						startsAt := func(pred func(ssa.Value) bool) bool {
+							if ph == nil {
+								return false
+							}
+							for i, e := range ph.Edges {
+								if !ph.Block().Dominates(ph.Block().Preds[i]) && !pred(e) {
+									return false
+								}
+							}
+							return true
+						}
+						switch want {
+						case "pre":
+							switch {
+							case win && zero(lo) && hi != nil && isPresamples(hi):
+							case !win && zero(idx) && idx != nil:
+							case !win && startsAt(func(e ssa.Value) bool { return zero(e) && e != nil }):
+								okRange := false
+								for _, ref := range *ph.Referrers() {
+									if bo, ok := ref.(*ssa.BinOp); ok && bo.Op == token.LSS && bo.X == ssa.Value(ph) && isPresamples(bo.Y) {
+										okRange = true
+									}
+								}
+								if !okRange {
+									bad = fmt.Sprintf("element read at %s whose index does not run over [0, presamples)", p.InstrPos(ia))
+								}
+							default:
+								bad = fmt.Sprintf("read of the raw samples at %s that is not confined to [0, presamples)", p.InstrPos(ia))
+							}
+						case "post":
+							switch {
+							case win && lo != nil && isPresamples(lo) && hi == nil:
+							case !win && startsAt(isPresamples):
+							default:
+								bad = fmt.Sprintf("read of the raw samples at %s that is not confined to [presamples, len)", p.InstrPos(ia))
+							}
+						}
+						return
+					}
+				}
+				// the result of a module helper: what it returns, with its parameters bound to the arguments
+				{
+					var call *ssa.Call
+					ri := 0
+					switch x := v.(type) {
+					case *ssa.Call:
+						call = x
+					case *ssa.Extract:
+						call, _ = x.Tuple.(*ssa.Call)
+						ri = x.Index
+					}
+					if call != nil {
+						usesVec := false
+						for _, a := range call.Call.Args {
+							if isVec(a) {
+								usesVec = true
+							}
+						}
+						if h := call.Call.StaticCallee(); !usesVec && !call.Call.IsInvoke() && isModuleFn(h) && len(h.Blocks) > 0 && len(h.Params) == len(call.Call.Args) && h != fn {
+							for i, prm := range h.Params {
+								if old, had := frame[prm]; had && old != call.Call.Args[i] {
+									frameClash = FuncName(h)
+								}
+								frame[prm] = call.Call.Args[i]
+							}
+							Instrs(h, func(in ssa.Instruction) {
+								if ret, ok := in.(*ssa.Return); ok && ri < len(ret.Results) {
+									walk(ret.Results[ri])
+								}
+							})
+							return
+						}
 					}
 				}
 				if c, ok := v.(*ssa.Call); ok {
@@ -788,9 +989,16 @@ func c13R6(p *Prog, r *Report) {
 				}
 			}
 			walk(st.Val)
+			if frameClash != "" {
+				r.Unk("C13.R6", FuncName(fn)+" "+f+" reads only samples", p.InstrPos(st), "the computation passes through "+frameClash+" more than once with different arguments; the sample ranges are not followed there")
+				continue
+			}
 			if bad == "" && nread == 0 {
 				bad = "no read of the record's samples found in the value's computation"
 			}
+			r.Check(narrowAt == "", "C13.R8", FuncName(fn)+" "+f+" is computed without 16-bit arithmetic on samples", p.InstrPos(st),
+				"samples are widened (to float64 or a wider integer) before any sum, difference or product",
+				f+" is computed with arithmetic carried out in a 16-bit (or narrower) integer type at "+narrowAt+": the result wraps modulo 65536 as soon as the operands are more than half of full scale apart (a baseline step, a large pulse), so the quantity is wrong for such records")
 			rng := "[presamples, len)"
 			if want == "pre" {
 				rng = "[0, presamples)"
